@@ -406,6 +406,8 @@ class World(object):
         # op-relative poll base (set by the driver at the start of each op)
         self.op_poll_base = 0
         self.op_poll_cap = None
+        # file system seam (sim.simfs.SimFS) if the run uses one
+        self.fs = None
 
     # interface protocol -----------------------------------------------------
 
